@@ -131,6 +131,9 @@ func (s *shrinker) removeGroups(deadline time.Time) {
 func (s *shrinker) minimizeBlocks(deadline time.Time) {
 	for i := 0; i < len(s.rec.data) && time.Now().Before(deadline); i++ {
 		minimize(s.rec.data[i], func(u uint64, label string) bool {
+			if i >= len(s.rec.data) {
+				return false // an accepted step can leave a pruned recording without block i
+			}
 			buf := append([]uint64(nil), s.rec.data...)
 			buf[i] = u
 			return s.accept(buf, label, "minimize block %v: %v to %v", i, s.rec.data[i], u)
